@@ -30,9 +30,9 @@ def ref_encode(mnem, it):
     if f == "dir":
         return opc("DIR") + bytes([v & 0xFF])
     if f in ("ext", "addr"):
-        return opc("EXT") + v.to_bytes(2, "big")
+        return opc("EXT") + (v & 0xFFFF).to_bytes(2, "big")
     if f == "extind":
-        return opc("IDX") + b"\x9F" + v.to_bytes(2, "big")
+        return opc("IDX") + b"\x9F" + (v & 0xFFFF).to_bytes(2, "big")
     if f == "pcr":
         ind = 0x10 if it.get("indirect") else 0
         s = v if v < 32768 else v - 65536
@@ -98,6 +98,7 @@ def check_decoder():
                 txt = R.render(it, R.spell(v, "dec") if v is not None else None)
                 back = R.parse_operand(mnem, txt, {})
                 assert back is not None and back["form"] == it["form"] and back.get("value") == it.get("value"), (mnem, it, txt, back)
+                assert R.classify(mnem, back)[0] == "valid", (mnem, txt, back)
                 n += 1
     # every opcode byte sequence that the table defines decodes, and undefined opcodes do not
     for op, (names, mode, base) in R.OPC.items():
